@@ -173,8 +173,12 @@ CHECKS["C13"] = {
     "harnesses": [
         {"probe": "core", "harness": "Harness_C13_defer", "setup": "Setup_C13_defer", "reach": ["c13.compared", "c13.incremental"], "workers": 12, "sched_confirm": True,
          "configs_quick": ["single"], "configs_thorough": ["single", "follow", "wl2"], "map_permute": 3,
-         "quick": {"params": {"budget": 1}, "sample_models": 12, "sample_every": 41}, "thorough": {"params": {"budget": 2}, "sample_models": 30, "sample_every": 301},
-         "what": "6 @defer families (two groups, lists, spreads, shared labels, nested) x symbolic if: variables x outcome deviations x every completion order of groups: arrival-order merge equals the defer-aware reference, delivery rules"},
+         "quick": {"params": {"budget": 1}, "sample_models": 12, "sample_every": 41}, "thorough": {"params": {"budget": 1}, "sample_models": 30, "sample_every": 301},
+         "what": "7 @defer families (two groups, lists, spreads, shared labels, nested) x symbolic if: variables x one outcome deviation x every completion order of groups: arrival-order merge equals the defer-aware reference, delivery rules"},
+        {"probe": "core", "harness": "Harness_C13_defer", "setup": "Setup_C13_defer", "reach": ["c13.compared", "c13.incremental"], "workers": 14, "sched": "first", "tag": "-b2", "thorough_only": True,
+         "configs_thorough": ["single"],
+         "thorough": {"params": {"budget": 2}, "sample_models": 30, "sample_every": 1501},
+         "what": "the same with two outcome deviations on the canonical schedule (lowest task id first)"},
     ],
 }
 
